@@ -24,6 +24,9 @@ pub enum Prim {
     F32(f32), F64(f64), Bool(bool), Str(String), String(String),
     Disp(tracing_core::field::DisplayValue<RawDebug>),
     Dbg(tracing_core::field::DebugValue<RawDebug>),
+    /// a Debug object whose rendering emits an event at call site `k` of the running program (a
+    /// lazily loaded resource whose loader logs)
+    DbgEv(tracing_core::field::DebugValue<EmitsEvent>),
     Err(Box<dyn std::error::Error + 'static>),
     Bytes(Box<[u8]>),
     EmptyV,
@@ -40,6 +43,7 @@ impl Prim {
             Prim::Str(v) => v, // `String: Value`
             Prim::String(v) => v,
             Prim::Disp(v) => v, Prim::Dbg(v) => v,
+            Prim::DbgEv(v) => v,
             Prim::Err(v) => v,
             Prim::Bytes(v) => v,
             Prim::EmptyV => &tracing_core::field::Empty,
@@ -69,6 +73,10 @@ impl Prim {
             "disp" => Prim::Disp(tracing_core::field::display(RawDebug(s()?))),
             "dbg" => Prim::Dbg(tracing_core::field::debug(RawDebug(s()?))),
             "bytes" => Prim::Bytes(unhex(p)?.into_boxed_slice()),
+            "dbgev" => {
+                let (k, h) = p.split_once('.')?;
+                Prim::DbgEv(tracing_core::field::debug(EmitsEvent { k: k.parse().ok()?, text: String::from_utf8(unhex(h)?).ok()? }))
+            }
             "err" => {
                 let chain = p.split(',').map(|h| String::from_utf8(unhex(h)?).ok()).collect::<Option<Vec<_>>>()?;
                 Prim::Err(Box::new(ChainErr::new(&chain)))
@@ -80,6 +88,18 @@ impl Prim {
             }
             _ => return None,
         }))
+    }
+}
+
+pub struct EmitsEvent {
+    pub k: usize,
+    pub text: String,
+}
+
+impl std::fmt::Debug for EmitsEvent {
+    fn fmt(&self, f: &mut std::fmt::Formatter<'_>) -> std::fmt::Result {
+        crate::program::nested_emit(self.k);
+        f.write_str(&self.text)
     }
 }
 
@@ -257,6 +277,31 @@ impl Suite for Values {
             _ => idx % 3,
         };
         match kind {
+            0 if idx % 40 == 6 => {
+                // a big collection: a span's values accumulate over its lifetime, far beyond the 32
+                // values of a single event (hundreds of distinct names, then lookups and overwrites)
+                let n = rng.range(257, 700);
+                let mk = |i: usize| format!("k{i:03}");
+                let mut order: Vec<usize> = (0..n).collect();
+                for i in (1..n).rev() {
+                    let j = rng.below(i + 1);
+                    order.swap(i, j);
+                }
+                let es: Vec<(String, Val)> = order.iter().map(|i| (mk(*i), gen::small_val(rng))).collect();
+                let (a, b) = es.split_at(rng.range(1, n - 1));
+                lines.push(format!("v collect {}", entries_tok(a)));
+                lines.push(format!("v extend {}", entries_tok(b)));
+                lines.push("v len".into());
+                for _ in 0..12 {
+                    let i = rng.below(n + 3);
+                    match rng.below(3) {
+                        0 => lines.push(format!("v insert {} {}", xs(&mk(i)), gen::small_val(rng).tok())),
+                        _ => lines.push(format!("v get {}", xs(&mk(i)))),
+                    }
+                }
+                lines.push("v len".into());
+                lines.push("v iter".into());
+            }
             0 => {
                 // operation sequence
                 let len = rng.range(1, if tier == Tier::Quick { 25 } else { 60 });
@@ -402,7 +447,8 @@ impl Suite for Values {
             ($what:expr) => {
                 let m: Vec<(String, Val)> = mirror.iter().map(|(k, v)| (k.to_owned(), Val::from_real(v))).collect();
                 if m != reference {
-                    out.fails.push(format!("C15 the same operations on a collection whose names are slices of shared buffers give {:?} after {}, the reference map has {:?}", m, $what, reference));
+                    let k = m.iter().zip(&reference).position(|(a, b)| a != b).unwrap_or(m.len().min(reference.len()));
+                    out.fails.push(format!("C15 the same operations on a collection whose names are slices of shared buffers differ from the reference map after {} ({} vs {} entries), first at position {k}: {:?} vs {:?}", $what, m.len(), reference.len(), m.get(k), reference.get(k)));
                 }
             };
         }
@@ -659,6 +705,7 @@ pub fn expected_capture(tok: &str) -> Option<Val> {
         "bool" => Val::Bool(p == "1"),
         "str" | "string" => Val::Str(s()),
         "disp" | "dbg" => Val::Obj(s()),
+        "dbgev" => Val::Obj(String::from_utf8(unhex(p.split_once('.')?.1).unwrap()).unwrap()),
         "bytes" => {
             let b = unhex(p).unwrap();
             Val::Obj(format!("[{}]", b.iter().map(|x| format!("{x:02x}")).collect::<Vec<_>>().join(" ")))
